@@ -178,12 +178,17 @@ def run(spec, tier, seed, repo_root):
     violations = []
     undecided_raised = []
     os.makedirs(os.path.join(VERIF, "replays"), exist_ok=True)
-    seen_sig = set()
+    seen_sig = {}
+    # richest cases first: a degenerate case (all drives zero ...) may not show natively what a generic one does
+    bad = sorted(bad, key=lambda r: -len(r.get("symbols", [])))
     for r in bad:
         sig = (r["case"]["kind"], r["status"], (r["mismatches"][0]["check"] if r["status"] == "mismatch" else r["exception"]["type"]))
-        if sig in seen_sig or len(violations) >= 4:
+        # one replay per kind of mismatch; for a case that RAISED under the shim (possibly a shim/torch divergence) up to
+        # six cases are tried natively until one reproduces
+        limit = 6 if r["status"] == "raised" else 1
+        if seen_sig.get(sig) == "reproduced" or seen_sig.get(sig, 0) >= limit or len(violations) >= 4:
             continue
-        seen_sig.add(sig)
+        seen_sig[sig] = seen_sig.get(sig, 0) + 1
         name = f"{prop}__{r['case']['kind']}_{len(violations)}"
         path = os.path.join(VERIF, "replays", re.sub(r"[^A-Za-z0-9_.#-]+", "_", name) + ".json")
         rec = dict(property=prop, engine="symtorch (bounded, symbolic entries)", case=_clean(r["case"]),
@@ -202,7 +207,13 @@ def run(spec, tier, seed, repo_root):
         if r["status"] == "raised" and not nat.get("reproduced"):
             undecided_raised.append((r, path))
         else:
+            if nat.get("reproduced"):
+                seen_sig[sig] = "reproduced"
             violations.append((r, path, nat.get("reproduced", False)))
+    if violations:
+        # raised-under-the-shim cases of a signature that did reproduce natively for a richer case are settled
+        undecided_raised = [(r, p) for r, p in undecided_raised
+                            if seen_sig.get((r["case"]["kind"], r["status"], r["exception"]["type"])) != "reproduced"]
 
     # ---- undecided cases (a value-dependent decision the shim cannot follow): bounded native search
     # for a failing input of the same case; an undecided case alone is never a violation
